@@ -40,8 +40,8 @@ func reasonOf(a Atom, be *BigEval) (kind, text string) {
 func reasonOfRaw(a Atom, be *BigEval) (kind, text string) {
 	a = normAtom(a)
 	// `slices.Contains(X, nil)`: some element of X is missing
-	if c, _ := callAndResult(a.V); c != nil && a.Want == True && calleeName(c) == "slices.Contains" && len(c.Call.Args) == 2 && isNilConst(c.Call.Args[1]) {
-		return "nil", desc(c.Call.Args[0]) + "[#i]"
+	if c, _ := callAndResult(a.V); c != nil && a.Want == True && calleeName(c) == "slices.Contains" && len(callArgs(c)) == 2 && isNilConst(callArgs(c)[1]) {
+		return "nil", desc(callArgs(c)[0]) + "[#i]"
 	}
 	// a search over a collection that found nothing is the exhausted loop, whichever way the search is written
 	if c, _ := callAndResult(a.V); c != nil && a.Want == False {
@@ -93,8 +93,8 @@ func reasonOfRaw(a Atom, be *BigEval) (kind, text string) {
 				other = n
 			}
 			// an operand obtained from a lookup helper is named by the value the helper returns
-			if g.Call != nil && len(g.Call.Call.Args) == 2 {
-				for _, op := range g.Call.Call.Args {
+			if g.Call != nil && len(callArgs(g.Call)) == 2 {
+				for _, op := range callArgs(g.Call) {
 					if op == g.SubjV {
 						if desc(op) == subj {
 							subj = descNN(op)
